@@ -15,8 +15,11 @@
 package acl
 
 import (
+	"fmt"
 	"slices"
 	"strings"
+
+	"github.com/gobwas/glob"
 )
 
 const (
@@ -116,6 +119,42 @@ func RemoveDuplicateEntries(entries []string, allAlias string) (res []string) {
 		}
 	}
 	return
+}
+
+// rulePattern returns the glob pattern that a key or channel rule carries, if the rule is one.
+func rulePattern(str string) (string, bool) {
+	if len(str) < 2 {
+		return "", false
+	}
+	switch str[0] {
+	case '~':
+		return str[1:], true
+	case '%':
+		if len(str) > 4 && strings.EqualFold(str[0:4], "%RW~") {
+			return str[4:], true
+		}
+		if len(str) > 3 && (strings.EqualFold(str[0:3], "%R~") || strings.EqualFold(str[0:3], "%W~")) {
+			return str[3:], true
+		}
+	case '+', '-':
+		if len(str) > 2 && str[1] == '&' {
+			return str[2:], true
+		}
+	}
+	return "", false
+}
+
+// ValidateRules rejects rule lists that cannot be applied: a key or channel pattern that is not a
+// valid glob. It is checked before anything is changed, so a rejected SETUSER leaves the user as is.
+func ValidateRules(cmd []string) error {
+	for _, str := range cmd {
+		if pattern, ok := rulePattern(str); ok {
+			if _, err := glob.Compile(pattern); err != nil {
+				return fmt.Errorf("invalid pattern %s: %v", pattern, err)
+			}
+		}
+	}
+	return nil
 }
 
 func (user *User) UpdateUser(cmd []string) error {
